@@ -130,13 +130,23 @@ async def kill_task(task: "asyncio.Future", attempts: int = 40) -> bool:
 
 
 def subst(obj: Any, mapping: Dict[str, Any]) -> Any:
-    if isinstance(obj, str):
-        return mapping.get(obj, obj)
+    """Fill in the placeholders of a wire template.  Only the two positions that carry protocol
+    identifiers are substituted - the message's own `id` ("$ID") and `params.progressToken`
+    ("$ID" / "$TOKEN") - never arbitrary strings, so generated payload text that happens to
+    equal a placeholder stays what it is."""
     if isinstance(obj, list):
         return [subst(x, mapping) for x in obj]
-    if isinstance(obj, dict):
-        return {k: subst(v, mapping) for k, v in obj.items()}
-    return obj
+    if not isinstance(obj, dict):
+        return obj
+    if "$raw" in obj:
+        return {"$raw": subst(obj["$raw"], mapping)}
+    out = dict(obj)
+    if isinstance(out.get("id"), str) and out["id"] in mapping:
+        out["id"] = mapping[out["id"]]
+    p = out.get("params")
+    if isinstance(p, dict) and isinstance(p.get("progressToken"), str) and p["progressToken"] in mapping:
+        out["params"] = dict(p, progressToken=mapping[p["progressToken"]])
+    return out
 
 
 def to_message(wire: Any) -> Any:
